@@ -7,6 +7,13 @@ PROPS = [json.loads(l) for l in open('/verif/properties.jsonl')]
 MC_TECH = "bounded exhaustive enumeration executed against the implementation"
 
 CHECKS = {
+    "C01": dict(
+        category="exploration",
+        text="Exhaustive differential against an independent reference interpreter (call-by-need big-step evaluator of the harness AST with the layered object model): the full operator x operand-type matrix, operator pairs, every program of the whole-grammar generator with <= k constructs, every call-binding shape, index/slice boundary grid, error/assert/short-circuit forms and statically invalid programs; each program in 6 configurations (default parser, legacy parser, imported file, ext-code variable, TLA function body, TLA code argument). Failing programs are shrunk to a minimal program, which keys the violation class.",
+        note="Trusted: the reference interpreter harness/src/refi.rs + refstd.rs as the statement of the semantics (it answers Unsure where the specification is silent; counted in the evidence), the strict JSON reader, the printer.",
+        technique=MC_TECH + " (all programs up to k constructs x 6 configurations, differential against a reference interpreter)",
+        design="DESIGN.md §4 C01",
+    ),
     "C04": dict(
         category="model_checking",
         text="Bounded exhaustive exploration on the real code: every std function x every boundary argument tuple, every short token/character sequence through all three parsers and the evaluator, every recursion depth across the frame limit, every 3-node dependency digraph, and an explicit-state exploration of all evaluation histories (12-op alphabet) on one thread/State with probes after every transition; workers are isolated processes so aborts and native stack overflows are attributed to the journalled case.",
